@@ -21,23 +21,23 @@ cells = collections.defaultdict(set)
 for f in glob.glob(f'/verif/replays/{prop}/*.json'):
     d = json.load(open(f)); s = d['signature']
     if s.get('layer') not in ('session', 'database'): continue
-    key = (s['layer'], s['anomaly'], s.get('ending', '-'), s.get('reader', '-'), s.get('write', '-'))
+    key = (s['layer'], s['anomaly'], s.get('ending', '-'), s.get('reader', '-'), s.get('write', '-'), s.get('diff', '-'))
     cells[key].add(s.get('probe', '-'))
 led = json.load(open('/verif/findings/known_findings.json'))
 led['findings'] = [x for x in led['findings'] if not (x.get('generated') and x['property'] == prop)]
 n = 0
 for key in sorted(cells):
-    layer, an, ending, reader, write = key
+    layer, an, ending, reader, write, diff = key
     rc = ROOT.get(f'{an}/{ending}') or ROOT.get(an)
     if rc is None:
         print("no root-cause class for", key, "- not listed (will stay a VIOLATION)"); continue
     n += 1
     m = {"layer": layer, "anomaly": an, "probe": sorted(cells[key])}
     if layer == 'session':
-        m.update({"ending": ending, "reader": reader, "write": write})
+        m.update({"ending": ending, "reader": reader, "write": write, "diff": diff})
     led['findings'].append({
         "id": f"{prop}-K{n:03d}", "property": prop, "status": "known", "generated": True,
-        "title": f"{an} [{write} / {reader}{'' if ending == '-' else ' / ' + ending}]: {rc[0]}",
+        "title": f"{an} [{write} / {reader}{'' if ending == '-' else ' / ' + ending}{'' if diff == '-' else ' / ' + diff}]: {rc[0]}",
         "root_cause": rc[1],
         "witness": f"replay files under /verif/replays/{prop}/ on the pinned tree; read paths: {', '.join(sorted(cells[key]))}",
         "matcher": m})
